@@ -44,7 +44,7 @@ def main():
     patch = os.path.join(out, "patch.diff")
     iso = "--isolated" in a
     # a scratch worktree of /repo's HEAD of our own (never the seed author's: `git stash` is shared between worktrees)
-    R2 = f"/tmp/vs/{sid}_repo"
+    R2 = f"/tmp/vs/{sid}" + os.environ.get("SEED_EVAL_TAG", "") + "_repo"
     os.makedirs("/tmp/vs", exist_ok=True)
     sh(f"git worktree remove --force {R2}", cwd="/repo")
     shutil.rmtree(R2, ignore_errors=True)
@@ -71,7 +71,7 @@ def main():
     if iso:
         # an isolated copy of /verif run against the scratch worktree (which has the change applied): does not
         # disturb builds going on in /verif.  The literal procedure (apply to /repo) is the default mode.
-        V2 = f"/tmp/vs/{sid}"
+        V2 = f"/tmp/vs/{sid}" + os.environ.get("SEED_EVAL_TAG", "")
         shutil.rmtree(V2, ignore_errors=True)
         sh(f"rsync -a --exclude .git --exclude _build/cases --exclude seeded /verif/ {V2}/")
         env = {"VALIDA_REPO": R2}
@@ -115,7 +115,8 @@ def main():
             sh("git checkout -- .", cwd="/repo")
             sh("git checkout -- evidence", cwd=V)
     res["caught_by"] = sorted(c for c, r in res["checks"].items() if r["exit"] != 0)
-    json.dump(res, open(rp, "w"), indent=1)
+    if "--no-record" not in a:
+        json.dump(res, open(rp, "w"), indent=1)
     print("caught_by:", res["caught_by"])
 
 
